@@ -294,6 +294,11 @@ class Binner(dict):
 
             _dohist(data, dmin, sortind, bsize, hist, revind=revind)
 
+        if revind is not None:
+            # data that fell in no bin (e.g. the maximum when nbin is sent)
+            # are not referenced; trim the unused tail
+            revind = revind[0: revind[nbin]]
+
         return hist, revind
 
     def _get_sort_index(self):
@@ -614,13 +619,15 @@ def _dohist(data, dmin, s, binsize, hist, revind=None):
 
     while i < s.size:
         data_index = s[i]
-        if dorev:
-            revind[offset] = data_index
 
         val = data[data_index]
 
         binnum = np.int64((val - dmin) / binsize)
         if binnum >= 0 and binnum < nbin:
+            # only the indices of counted data are stored
+            if dorev:
+                revind[offset] = data_index
+
             if binnum > binnum_old:
                 tbin = binnum_old + 1
                 while tbin <= binnum:
@@ -630,15 +637,15 @@ def _dohist(data, dmin, s, binsize, hist, revind=None):
 
             hist[binnum] += 1
             binnum_old = binnum
+            offset += 1
 
         i += 1
-        offset += 1
 
     if dorev:
-        # Fill in the last ones
+        # Fill in the last ones; offset is one past the last stored index
         tbin = binnum_old + 1
         while tbin <= nbin:
-            revind[tbin] = revind.size
+            revind[tbin] = offset
             tbin += 1
 
 
